@@ -122,13 +122,18 @@ class Revision(UserString):
         return self.data >= other
 
 
+def _rev_int(rev) -> int:
+    """Integer value of a revision; a missing revision (None or "") is revision 0."""
+    if isinstance(rev, Revision):
+        return rev._revint
+    return int(rev) if rev else 0
+
+
 def ver_cmp(ver1: str, rev1: str, ver2: str, rev2: str) -> int:
     # If the versions are the same, comparing revisions will suffice.
     if ver1 == ver2:
         # revisions are equal if 0 or None (versionless cpv)
-        if not rev1 and not rev2:
-            return 0
-        return cmp(rev1, rev2)
+        return cmp(_rev_int(rev1), _rev_int(rev2))
 
     # Split up the versions into dotted strings and lists of suffixes.
     parts1 = ver1.split("_")
@@ -156,15 +161,16 @@ def ver_cmp(ver1: str, rev1: str, ver2: str, rev2: str) -> int:
         ver_parts2_len = len(ver_parts2)
 
         # Iterate through the components
-        for v1, v2 in zip(ver_parts1, ver_parts2):
+        for idx, (v1, v2) in enumerate(zip(ver_parts1, ver_parts2)):
             # If the string components are equal, the numerical
             # components will be equal too.
             if v1 == v2:
                 continue
 
-            # If one of the components begins with a "0" then they
-            # are compared as floats so that 1.1 > 1.02; else ints.
-            if v1[0] != "0" and v2[0] != "0":
+            # The first component is always compared as an integer.
+            # For the others, if one of the components begins with a "0" then
+            # they are compared as floats so that 1.1 > 1.02; else ints.
+            if idx == 0 or (v1[0] != "0" and v2[0] != "0"):
                 v1 = int(v1)
                 v2 = int(v2)
             else:
@@ -236,7 +242,7 @@ def ver_cmp(ver1: str, rev1: str, ver2: str, rev2: str) -> int:
 
     # Our versions had different strings but ended up being equal.
     # The revision holds the final difference.
-    return cmp(rev1, rev2)
+    return cmp(_rev_int(rev1), _rev_int(rev2))
 
 
 class CPV(base.base):
